@@ -117,6 +117,12 @@ func genC09(t *rapid.T) interface{} {
 		}
 	}
 	c.Regexps = []string{"a+", "a|ab", "ab|a", "(a)(b)?", "\\s+", genRegexp(t), genRegexp(t)}
+	if rapid.IntRange(0, 3).Draw(t, "manyRegexps") == 0 {
+		// more distinct expressions on one reader than any bounded table of compiled patterns holds
+		for k := 1; k <= 10; k++ {
+			c.Regexps = append(c.Regexps, fmt.Sprintf("[ab]{%d}", k), fmt.Sprintf("a{%d}b?", k))
+		}
+	}
 	c.TakeN = []int{1, rapid.IntRange(1, 6).Draw(t, "take")}
 	c.ReaderFirst = rapid.IntRange(0, 2).Draw(t, "readerFirst") == 0
 	c.ViaDisk = rapid.IntRange(0, 5).Draw(t, "viaDisk") == 3
@@ -129,7 +135,7 @@ func modelPrefix(d []byte, o int, enc []byte) bool { return bytes.HasPrefix(d[o:
 
 func checkC09(ci interface{}, st *Stats) error {
 	c := ci.(*C09Case)
-	f := text.NewFile("main", c.Data)
+	f := newFileOwned("main", c.Data)
 	if c.ViaDisk {
 		var err error
 		if f, _, err = fileViaDisk(c.Data); err != nil {
